@@ -51,8 +51,8 @@ CONFIG = 'class CfgTest { num = 1; txt = "t"; arr[] = {1,{2,3},"x"}; class Sub {
 
 SCALAR = ["0", "-0", "1", "-1", "0.5", "2", "3", "20", "255", "1e10", "-1e10", "2147483648", "-2147483649", "3.4e38", "(1e38*10)", "(-1e38*10)", "(sqrt -1)", "1e-30"]
 SCALAR_Q = ["0", "1", "-1", "0.5", "1e10", "-1e10", "20", "-2147483649", "3.4e38", "(1e38*10)", "(sqrt -1)"]
-STRING = ['""', '"a"', '"%1"', '"%"', '"%0"', '"%99999999999"', "STR64", '(toString [200,255,1])', '"1"', '"a,b"', '"/sub/../f.sqf"', '"f.sqf"', '"CfgTest"', '"m1"', '"Land_Test"', '"_x"', '"1 +"', '"#define A A\nA"', '"one.sqf"', '"empty.sqf"', '"bom1.sqf"', '"bom2.sqf"', '"bom3.sqf"', '"bom4.sqf"', '"bom5.sqf"', '"bom6.sqf"', '"bom7.sqf"', '"bom8.sqf"']
-STRING_Q = ['""', '"a"', '"%99999999999"', '"%1"', "STR64", '"f.sqf"', '"1 +"', '"CfgTest"', '"bom1.sqf"', '"bom3.sqf"', '"Land_Test"']
+STRING = ['""', '"a"', '"%1"', '"%"', '"%0"', '"%99999999999"', "STR64", '(toString [200,255,1])', '"1"', '"a,b"', '"/sub/../f.sqf"', '"f.sqf"', '"CfgTest"', '"m1"', '"Land_Test"', '"_x"', '"1 +"', '"#define A A\nA"', '"one.sqf"', '"empty.sqf"', '"bom1.sqf"', '"bom2.sqf"', '"bom3.sqf"', '"bom4.sqf"', '"bom5.sqf"', '"bom6.sqf"', '"bom7.sqf"', '"bom8.sqf"', '"sub"', '"/"', '"sub/"']
+STRING_Q = ['""', '"a"', '"%99999999999"', '"%1"', "STR64", '"f.sqf"', '"1 +"', '"CfgTest"', '"bom1.sqf"', '"bom3.sqf"', '"Land_Test"', '"sub"']
 REPS = ["0", '"a"', "[]", "{}", "objNull", "true", "[1,2]", "-1", "OBJ", "1e10", "configFile", "configNull", "grpNull"]
 REPS_Q = ["0", '"a"', "[]", "{}", "objNull", "-1", "configFile"]
 CODE = ["{}", "{true}", "{1}", "{nil}", "{_x}", "{throw 1}", "{_this}", '{1 + "a"}', "{false}"]
@@ -97,7 +97,7 @@ ARRAY_FIXED = ["[nil]", "[[]]", "[1,\"a\"]", "[[1,2],[3]]", "[-1,5]", "[0,1e10]"
 
 
 # well-formed argument arrays of the operators with long / nested formats, and every single-element deviation from them
-EXEMPLARS = [['"Land_Test"', "[0,0,0]", "[]", "0", '"NONE"'], ["[0,0,0]", "GRP", '""', "0.5", '"PRIVATE"'], ['"m2"', "[0,0,0]"], ['"m1"', "OBJ"],
+EXEMPLARS = [['"%99999999999"', "1"], ['"%1 %0 %2147483648 %"', "1"], ['"Land_Test"', "[0,0,0]", "[]", "0", '"NONE"'], ["[0,0,0]", "GRP", '""', "0.5", '"PRIVATE"'], ['"m2"', "[0,0,0]"], ['"m1"', "OBJ"],
              ['"iso_v"', "1"], ['"iso_v"', "1", "true"], ["0", "0", "0"], ["[0,0,0]", "[1,1,1]"], ['"%1 %2"', "1", '"b"'], ["[1,2]", "[3,4]"],
              ['"_a"', '["_b", 1]', '["_c", 2, [0]]', '["_d", 3, [0], 1]'], ["OBJ", '"iso_v"'], ['[["a",1],["b",2]]'], ["0", "2"], ["[0,0,0]", '["All"]', "10"]]
 
